@@ -351,3 +351,66 @@ def check_dead_inplace_updates(ctx, fns, rule='A28'):
                    short(a) if read else f'`{short(a)}`: nothing reads `{x_}` after this statement - the loop around it '
                                          f'tests / selects on another array, which is therefore never updated')
     return n
+
+
+# ---------------------------------------------------------------------- A29: stale loop variables
+def check_stale_loop_variables(ctx, fns, rule='A29'):
+    """A name that is bound only inside one loop (its target, or an assignment in its body) and read inside a *later*
+    loop of the same block holds whatever the last iteration of the first loop left - the later loop has its own
+    iteration variable for that role (copy/paste slip: `deriving_node` read where `option_decision_node` is meant).
+    The search idiom (`for ..: if ..: found = x; break` followed by a use of `found`) is not this: a loop with a
+    `break` of its own is left alone.  One obligation per pair of consecutive loops that share such a name; a summary
+    obligation records how many loop pairs were looked at."""
+    pairs = 0
+    for fn in fns:
+        if isinstance(fn.node, ast.Lambda):
+            continue
+
+        def own_break(lp):
+            def rec(stmts):
+                for st in stmts:
+                    if isinstance(st, ast.Break):
+                        return True
+                    if isinstance(st, (ast.For, ast.While, ast.FunctionDef, ast.AsyncFunctionDef, ast.ClassDef)):
+                        continue
+                    for f_ in ('body', 'orelse', 'finalbody'):
+                        if isinstance(getattr(st, f_, None), list) and rec(getattr(st, f_)):
+                            return True
+                    if isinstance(st, ast.Try) and any(rec(h.body) for h in st.handlers):
+                        return True
+                return False
+            return rec(lp.body)
+
+        def scan(stmts):
+            nonlocal pairs
+            for i, st in enumerate(stmts):
+                if isinstance(st, ast.For) and not own_break(st):
+                    inner = {id(x) for x in ast.walk(st)}
+                    bound = {x.id for x in ast.walk(st) if isinstance(x, ast.Name) and isinstance(x.ctx, ast.Store)}
+                    elsewhere = {x.id for x in ast.walk(fn.node) if id(x) not in inner and isinstance(x, ast.Name) and
+                                 isinstance(x.ctx, ast.Store)} | set(fn.params)
+                    only_here = bound - elsewhere
+                    for later in stmts[i + 1:]:
+                        if not isinstance(later, (ast.For, ast.While)):
+                            continue
+                        pairs += 1
+                        ctx.touch(fn)
+                        for x in ast.walk(later):
+                            if isinstance(x, ast.Name) and isinstance(x.ctx, ast.Load) and x.id in only_here:
+                                ctx.ob(rule, fkey(fn, rule, f'stale-loop-variable:{x.id}'), False,
+                                       f'{fn.module.relpath}:{x.lineno}',
+                                       f'`{x.id}` is bound only inside the loop at L{st.lineno} (which runs to '
+                                       f'completion); a later loop reads the value its last iteration left',
+                                       f'read at L{x.lineno} inside the loop at L{later.lineno}')
+                                only_here = only_here - {x.id}
+                for f_ in ('body', 'orelse', 'finalbody'):
+                    if isinstance(getattr(st, f_, None), list) and not isinstance(st, (ast.FunctionDef, ast.ClassDef)):
+                        scan(getattr(st, f_))
+                if isinstance(st, ast.Try):
+                    for h in st.handlers:
+                        scan(h.body)
+        scan(fn.node.body)
+    ctx.ob(rule, f'{rule}:consecutive-loops-share-no-stale-name', True, 'adsg_core/graph',
+           'no loop reads a name that only an earlier, completed loop of the same block binds',
+           f'{pairs} pairs of consecutive loops examined')
+    return pairs
